@@ -467,11 +467,13 @@ fn merge(rep: &mut EngineReport, j: &Json, unconfirmed: &mut Vec<(Violation, Str
         rep.truncated = true;
     }
     if let Some(Json::Arr(a)) = j.get("samples") {
+        // shards finish in any order: keep the samples with the smallest seeds so that the
+        // evidence file is the same from run to run
         for s in a {
-            if rep.samples.len() < 4 {
-                rep.samples.push(s.clone());
-            }
+            rep.samples.push(s.clone());
         }
+        rep.samples.sort_by_key(|s| s.get("seed").and_then(|x| x.int()).unwrap_or(0));
+        rep.samples.truncate(4);
     }
     if let Some(Json::Obj(o)) = j.get("known_hits") {
         for (k, v) in o {
